@@ -37,6 +37,7 @@ MECH_F = "scale-factor-memo-key-ignores-its-arguments"
 MECH_G = "stability-memo-entries-alias-one-mutable-pipeline"
 MECH_H = "manifold-memo-not-invalidated-when-generating-orbit-changes"
 MECH_I = "manifold-result-attribute-not-updated-when-compute-served-from-memo"
+MECH_J = "save-evaluates-every-dynamics-property-and-fails-when-one-raises"
 
 MU_B = 0.05
 AMPS = (0.01, 0.02, 0.03)
@@ -190,6 +191,10 @@ class OrbitFamily:
     def fp_equal(self, a, b):
         return tw.compare(a, b, RTOL)[0]
 
+    def relevant(self, opname):
+        """Fingerprint components (0 initial_state, 1 period, 2 stored trajectory) the operation's value depends on."""
+        return (2,) if self.ops[opname].kind == "trajectory" else (0, 1)
+
     def nontrivial(self, history):
         seen_mut = False
         for n in history:
@@ -317,6 +322,9 @@ class ManifoldFamily:
     def fp_equal(self, a, b):
         return tw.compare(a, b, RTOL)[0]
 
+    def relevant(self, opname):
+        return (2,) if self.ops[opname].kind == "m_read" else (0, 1)
+
     def nontrivial(self, history):
         seen = False
         for n in history:
@@ -367,6 +375,7 @@ class PointFamily:
         from hiten.algorithms.linalg.options import EigenDecompositionOptions
         self.env = env
         self.eopts = {"D": EigenDecompositionOptions(delta=1e-6, tol=1e-6), "B": EigenDecompositionOptions(delta=0.9, tol=1e-6)}
+        self.linear_modes_error = {}
         self.ops = {}
         for p in ("pa", "pb", "pc"):
             self._add(Op(f"{p}.position", lambda h, p=p: np.array(h[p].position), memo_tag="position"))
@@ -427,7 +436,12 @@ class PointFamily:
         from hiten.system.libration.collinear import L1Point, L2Point
         from hiten.system.libration.triangular import L4Point
         sb = self.env.system_b()
-        return {"pa": L1Point(self.env.sa), "pb": L4Point(sb), "pc": L2Point(sb)}
+        h = {"pa": L1Point(self.env.sa), "pb": L4Point(sb), "pc": L2Point(sb)}
+        if twin and not self.linear_modes_error:
+            # what a plain read of .linear_modes gives on each point (pb: RuntimeError, the point is linearly unstable)
+            for p in ("pa", "pb", "pc"):
+                self.linear_modes_error[p] = tw.capture(lambda: h[p].dynamics.linear_modes)
+        return h
 
     def dispose(self, h):
         h.clear()
@@ -444,6 +458,9 @@ class PointFamily:
 
     def fp_equal(self, a, b):
         return True
+
+    def relevant(self, opname):
+        return ()
 
     def nontrivial(self, history):
         # a point has no setters of its own: a history is non-trivial when a request that can be served from a memo
@@ -467,6 +484,9 @@ class PointFamily:
         s = steps[n]
         op = self.ops[s.op]
         p = s.op[:2]
+        if (op.kind == "saveload" and isinstance(s.real, tw.Exc) and s.twin == "reloaded" and s.real.type == "RuntimeError"
+                and isinstance(self.linear_modes_error.get(p), tw.Exc) and s.real.msg == self.linear_modes_error[p].msg):
+            return n, MECH_J                      # save() died of the exception that reading .linear_modes raises on this point
         if isinstance(s.real, tw.Exc) or isinstance(s.twin, tw.Exc):
             return n, None
         cm_hit = any(t == "center_manifold" and h for (t, h, _) in s.events)
@@ -557,6 +577,9 @@ class CMFamily:
     def fp_equal(self, a, b):
         return a == b
 
+    def relevant(self, opname):
+        return (0,) if opname.startswith("c1") else (1,)
+
     def nontrivial(self, history):
         seen = set()
         for n in history:
@@ -646,6 +669,9 @@ class SystemFamily:
     def fp_equal(self, a, b):
         return True
 
+    def relevant(self, opname):
+        return ()
+
     def nontrivial(self, history):
         return len(set(history)) < len(history) or any(self.ops[n].kind == "saveload" for n in history)
 
@@ -696,7 +722,7 @@ class Explorer:
         ctx.stat(f"rel_diff_real_vs_twin[{fam.name}]", res["rel"])
         for s in res["steps"]:
             key = (fam.name, s.op)
-            good = not isinstance(s.real, tw.Exc) and not isinstance(s.twin, tw.Exc)
+            good = not (isinstance(s.real, tw.Exc) and isinstance(s.twin, tw.Exc))
             self.ok_obs[key] = self.ok_obs.get(key, False) or good
             self.n_obs[key] = self.n_obs.get(key, 0) + 1
         n = res["mismatch"]
@@ -1019,6 +1045,7 @@ def run(ctx):
                      "distinct by hash of (family, constructor parameters, history)")
     spy, env, ex = _setup(ctx)
     import time
+    # development aid: C20_ONLY=orbit,cm runs a subset of the families (the requirements below then report INCONCLUSIVE)
     only = os.environ.get("C20_ONLY", "").split(",") if os.environ.get("C20_ONLY") else None
     walls = {}
     try:
@@ -1038,7 +1065,7 @@ def run(ctx):
         env.close()
     # an operation that raised on BOTH sides every time it was tried was never really compared (harness error?)
     never_ok = sorted(f"{f}:{o}" for (f, o), good in ex.ok_obs.items() if not good and ex.n_obs[(f, o)] >= 5
-                      and not o.endswith("correct_X") and not o.startswith(("pb.linear_modes", "pb.normal_form_transform")))
+                      and not o.startswith(("pb.linear_modes", "pb.normal_form_transform")))
     if never_ok:
         ctx.mark_inconclusive(f"operations that never returned a value on both sides: {never_ok[:6]}")
     ctx.note("memo_hits_by_tag", dict(spy.hits.most_common(20)))
